@@ -285,7 +285,7 @@ class FuncGen:
         if self.depth > 0:
             choices += ["return"]
         if g.p.tuples:
-            choices += ["unpack"] * 2
+            choices += ["unpack"] * 2 + ["rebind"]
         if g.p.arrays:
             choices += ["arr_set", "arr_new", "arr_new"]
         if g.p.nested_funcs and self.depth == 0 and not self.local_funcs:
@@ -474,20 +474,30 @@ class FuncGen:
         tts = [t for t in g.value_types() if t.kind == "tuple"]
         if g.p.starred and g.chance(0.3):
             # starred unpacking of an int tuple literal / expression list
-            n = self.r.randint(3, 5)  # guppy cannot infer the element type of an empty rest
-            pos = self.r.randrange(3)
-            a, c = self.fresh(INT), self.fresh(INT)
-            rest_n = n - 2
+            # guppy cannot infer the element type of an empty rest: rest has >= 1 element
+            nl, nr = g.pick([(2, 0), (1, 1), (0, 2), (1, 0), (0, 1), (2, 1), (1, 2), (3, 1), (0, 3)])
+            rest_n = self.r.randint(1, 3)
+            n = nl + nr + rest_n
+            lefts = [self.fresh(INT) for _ in range(nl)]
+            rights = [self.fresh(INT) for _ in range(nr)]
             xr = self.fresh(arr(INT, rest_n))
-            tgt = [f"{a}, {c}, *{xr}", f"{a}, *{xr}, {c}", f"*{xr}, {a}, {c}"][pos]
-            rhs = ", ".join(self.expr(INT, 1) for _ in range(n))
+            tgt = ", ".join(lefts + [f"*{xr}"] + rights)
+            # distinct element values, so a shifted or permuted slice is visible
+            base = self.r.randint(1, 50)
+            rhs_items = [str(base + 7 * j) if g.chance(0.6) else f"({self.expr(INT, 1)})" for j in range(n)]
+            rhs = ", ".join(rhs_items)
             self.lines.append(f"{ind}{tgt} = {rhs}")
             # the installed QIS compiler mishandles whole-array ops (result, copy) on the offset
             # arrays a starred unpack produces; rebuild the rest element-wise (same meaning)
             self.lines.append(f"{ind}{xr} = array(" + ", ".join(f"{xr}[{j}]" for j in range(rest_n)) + ")")
-            self.define(a, INT)
-            self.define(c, INT)
+            for v in lefts + rights:
+                self.define(v, INT)
             self.define(xr, arr(INT, rest_n))
+            if g.p.results_in_body:
+                for v in lefts + rights:
+                    self.lines.append(f'{ind}result("{g.tag()}", {v})')
+                for j in range(rest_n):
+                    self.lines.append(f'{ind}result("{g.tag()}", {xr}[{j}])')
             self.kind("starred")
             return True
         if not tts:
@@ -506,6 +516,50 @@ class FuncGen:
         self.lines.append(f"{ind}{tgt} = {e}")
         self.kind("unpack")
         return True
+
+    def s_rebind(self, ind: str) -> bool:
+        """Whole read, rebind, whole read of a tuple / struct variable inside one basic block, all
+        three observed (a stale cached wire for the packed value would show as the old value)."""
+        g = self.g
+        tys = [t for t in g.value_types() if t.kind in ("tuple", "struct")]
+        if not tys:
+            return self.s_assign(ind)
+        ty = g.pick(tys)
+        olds = self.vars_of(ty)
+        if olds and g.chance(0.6):
+            v = g.pick(olds)
+        else:
+            v = self.fresh(ty)
+            self.lines.append(f"{ind}{v} = {self.expr(ty, 1)}")
+            self.define(v, ty)
+        a, b = self.fresh(ty), self.fresh(ty)
+        self.lines.append(f"{ind}{a} = {v}")
+        # new value must differ from the old one in every leaf: build from shifted projections
+        self.lines.append(f"{ind}{v} = {self.shifted(v, ty)}")
+        self.lines.append(f"{ind}{b} = {v}")
+        self.define(a, ty)
+        self.define(b, ty)
+        if g.p.results_in_body:
+            self.lines += g.report_lines(a, ty, ind)
+            self.lines += g.report_lines(b, ty, ind)
+            self.lines += g.report_lines(v, ty, ind)
+        self.kind("rebind")
+        return True
+
+    def shifted(self, expr: str, ty: Ty) -> str:
+        """An expression of type `ty` all of whose leaves differ from those of `expr`."""
+        if ty.kind == "int":
+            return f"({expr} + 1)"
+        if ty.kind == "float":
+            return f"({expr} + 0.5)"
+        if ty.kind == "bool":
+            return f"(not {expr})"
+        if ty.kind == "tuple":
+            return "(" + ", ".join(self.shifted(f"{expr}[{k}]", e) for k, e in enumerate(ty.elems)) + \
+                ("," if len(ty.elems) == 1 else "") + ")"
+        if ty.kind == "struct":
+            return f"{ty.name}(" + ", ".join(self.shifted(f"{expr}.{fn}", t) for fn, t in ty.elems) + ")"
+        raise AssertionError(ty.kind)
 
     def s_arr_new(self, ind: str) -> bool:
         g = self.g
